@@ -184,8 +184,34 @@ func c04PendingInput(c *Ctx) {
 						}
 						x := lenOf(bo.X)
 						k, isK := ConstInt(bo.Y)
-						if x == nil || !isK || k != 0 || !pending[x] {
+						if x == nil || !isK || k != 0 {
 							continue
+						}
+						if !pending[x] {
+							// a helper of the type that is handed the unconsumed input (keepRemainder(rest)): every caller passes pending input
+							par, isPar := x.(*ssa.Parameter)
+							if !isPar {
+								continue
+							}
+							idx, sites, good := paramIdx(par), 0, 0
+							for _, g := range p.FuncsIn(tb.rel) {
+								var pg map[ssa.Value]bool
+								for _, call := range Calls(g) {
+									if call.Common().StaticCallee() != fn || idx < 0 || idx >= len(call.Common().Args) {
+										continue
+									}
+									sites++
+									if pg == nil {
+										pg = Taint(g, pendingSeeds(g, nt, tb.field), TaintOpts{CallResult: func(*ssa.Call, []int) bool { return true }})
+									}
+									if pg[call.Common().Args[idx]] {
+										good++
+									}
+								}
+							}
+							if sites == 0 || good != sites {
+								continue
+							}
 						}
 						if (bo.Op == token.GTR && !dc.Pol) || (bo.Op == token.EQL && dc.Pol) || (bo.Op == token.NEQ && !dc.Pol) || (bo.Op == token.LEQ && dc.Pol) {
 							okDom = true
